@@ -21,6 +21,8 @@
 (*   "F2"  one CounterZero guard pair for the whole framework               *)
 (*   "F3"  a machine signalling twice is sent its own signal                *)
 (*   "F4"  a signal raised in the second round stays pending                *)
+(*   "F11" limits not re-evaluated when CounterZero transitions re-enter    *)
+(*         the state with a newly sampled limit                             *)
 (***************************************************************************)
 EXTENDS FwDefs
 
@@ -268,7 +270,14 @@ DoTrans(S, c) ==
 
 \* would the tail of the transition on top of the stack schedule an action?
 AfterAllow(S) == LET f == Top(S) IN IF f.via THEN S.slot[f.m + 1].kind = "None" ELSE TRUE
-AfterSched(S) == AfterAllow(S) /\ Top(S).below
+\* the limits the tail of the transition goes by: those captured before the counter update, unless
+\* CounterZero transitions left the entered state and came back to it (a new stay with a newly
+\* sampled limit), in which case they are evaluated again ("F11": they were not)
+AfterBelow(S) ==
+  LET f == Top(S) IN
+  IF ~("F11" \in Variant) /\ f.via /\ S.ret = "C" /\ Rt(S, f.m).state = f.next
+  THEN BelowLimits(S, f.m) ELSE f.below
+AfterSched(S) == AfterAllow(S) /\ AfterBelow(S)
 
 \* tail of a regular transition(): schedule, compute StateChange
 DoAfter(S, c) ==
@@ -278,11 +287,12 @@ DoAfter(S, c) ==
       allow == AfterAllow(S)
       inner == f.via /\ S.ret = "C"
       a     == StateOf(S, m, f.next).action
-      slot  == IF allow /\ f.below THEN MkAct(a, m, c.timeout, c.duration) ELSE S.slot[m + 1]
+      below == AfterBelow(S)
+      slot  == IF allow /\ below THEN MkAct(a, m, c.timeout, c.duration) ELSE S.slot[m + 1]
       res   == IF f.cur = Rt(S, m).state /\ ~inner THEN "U" ELSE "C"
       S2    == [S1 EXCEPT !.slot[m + 1] = slot]
   IN [S |-> Complete(S2, m, res, f.k),
-      lines |-> <<AsLine(m, f.next, allow, f.below, slot, res = "C")>>]
+      lines |-> <<AsLine(m, f.next, allow, below, slot, res = "C")>>]
 
 \* decrement_limit()
 DoDec(S) ==
